@@ -193,3 +193,16 @@ MANIFEST_TEXT.update({
                 technique=DSIM + "E0 with write-log crash-point enumeration, disk-error injection and reload oracle"),
 })
 NOT_APPLICABLE[:] = [x for x in NOT_APPLICABLE if x["property_id"] not in PROPS]
+
+# C01-C05: a fifth of the worker slots runs the shared-log scenarios of the E1 scheduler (race build):
+# their statements must also hold for histories that are concurrent on one log instance.
+for _p in ("C01", "C02", "C03", "C04", "C05"):
+    PROPS[_p]["also"] = [dict(prop=_p + "c", variant="race", share=0.2)]
+    PROPS[_p]["rule"] += (" A fifth of the runs are E1 runs (seeded task scheduler, race build): 2-4 tasks appending, merging and reading on one shared log; "
+                          "final states, every append and every read are checked against the exact state sequence.")
+
+# fetch engine and byzantine merges also under the race detector: a fifth of the worker slots runs the same
+# runs with the -race build (the library's own goroutines - fetch workers, verification workers - are real)
+for _p in ("C06", "C09", "C10", "C11", "C12"):
+    PROPS[_p].setdefault("also", []).append(dict(prop=_p, variant="race", share=0.2))
+    PROPS[_p]["rule"] += " A fifth of the runs execute under the race detector (a report kills the worker with exit 66 and is attributed to the run)."
